@@ -109,7 +109,7 @@ Leaves ==
     {TextN(w, tr) : w \in Words, tr \in Ws} \cup
     {ExprN(e, tr) : e \in Exprs, tr \in Ws} \cup
     {VoidN(nm, at, tr) : nm \in VoidNames, at \in AttrChoices, tr \in Ws} \cup
-    {CallN(c, af) : c \in {"leaf", "wrap", "box.item"}, af \in Ws} \cup
+    {CallN(c, af) : c \in {"leaf", "wrap", "box.item", "show"}, af \in Ws} \cup
     {SlotN(af) : af \in Ws} \cup
     {HCommentN(af) : af \in Ws} \cup
     {MCommentN(af) : af \in Ws} \cup
@@ -219,6 +219,7 @@ TagTok(n, at, g) == [t |-> "open", n |-> n, g |-> g, attrs |-> at]
 \*   [a |-> "spread", m]    [a |-> "cond", c, then, else]   (then/else: lists of const/boolc/expr/class attributes)
 \*   [a |-> "class", e]     class={ expr } with a plain string class name (id K1...)
 \*   [a |-> "class2"]       class={ K1, K2 }: two class expressions (not a single string expression)
+\*   [a |-> "classkv", c]   class={ K1, templ.KV(K2, c) }: the second class is present iff condition c holds
 \*   [a |-> "url", u]       href={ templ.URL(U) }: a URL attribute; U1 is an allowed URL, U2 a javascript: URL, which is
 \*                          replaced by the fixed failed-sanitization URL (what the sanitiser admits is C04's subject)
 \*   [a |-> "style", e]     style={ T }: a style attribute value (T1 a declaration string, T2 a map with one declaration)
@@ -246,6 +247,8 @@ DenAttrs(at, env) ==
                       [] a.a = "expr"   -> [pairs |-> << [n |-> a.n, v |-> a.e] >>, evs |-> << a.e >>]
                       [] a.a = "class"  -> [pairs |-> << [n |-> "class", v |-> a.e] >>, evs |-> << a.e >>]
                       [] a.a = "class2" -> [pairs |-> << [n |-> "class", v |-> "K12"] >>, evs |-> << "K1", "K2" >>]
+                      [] a.a = "classkv" -> [pairs |-> << [n |-> "class", v |-> IF env.c[a.c] THEN "K12" ELSE "K1"] >>,
+                                             evs |-> << "K1", "K2", a.c >>]
                       [] a.a = "spread" -> [pairs |-> SpreadPairs(a.m), evs |-> << a.m >>]
                       [] a.a = "cond"   -> LET sub == DenAttrs(IF env.c[a.c] THEN a.then ELSE a.else, env)
                                            IN [pairs |-> sub.pairs, evs |-> << a.c >> \o sub.evs]
@@ -338,9 +341,11 @@ DenNode(nd, prev, env) ==
                             IN [toks |-> r.toks, evs |-> << "S" >> \o r.evs, prev |-> After(r.prev)]
       [] nd.k = "call" -> [toks |-> IF nd.comp = "leaf" THEN LeafToks("may")
                                     \* a template with a receiver: templ (b boxT) item() { <em>m</em> }, called as @box.item()
+                                    \* a template with a parameter: templ show(s string) { <q>{ s }</q> }, called as @show(env.E(1))
+                                    ELSE IF nd.comp = "show" THEN << TagTok("q", <<>>, "may"), Tok("val", "E1", "mustnot"), Tok("close", "q", "mustnot") >>
                                     ELSE IF nd.comp = "box.item" THEN << TagTok("em", <<>>, "may"), Tok("word", "m", "mustnot"), Tok("close", "em", "mustnot") >>
                                     ELSE << TagTok("section", <<>>, "may"), Tok("close", "section", "may") >>,
-                           evs |-> <<>>, prev |-> POpaque]
+                           evs |-> IF nd.comp = "show" THEN << "E1" >> ELSE <<>>, prev |-> POpaque]
       [] nd.k = "callb" -> LET r == DenList(nd.body, POpaque, env) IN
                            [toks |-> << TagTok("section", <<>>, "may") >> \o r.toks \o << Tok("close", "section", "may") >>,
                             evs |-> r.evs, prev |-> POpaque]
